@@ -53,3 +53,13 @@ Definition s_cut : st := run_sched (cfg 1000 0) (init sc_cut) [ABoss; ABSnd; FCu
 Example cut_state : reach (cfg 1000 0) sc_cut s_cut /\ cut (ev s_cut) = true /\ final s_cut = false /\
   dalive (ev s_cut) = true /\ stdin_open (ev s_cut) = true.
 Proof. split; [apply run_sched_reach; constructor | vm_compute; repeat split]. Qed.
+
+(* a fault-free reachable state in which the boss waits for the final message *)
+Definition sc_empty : scenario := mkSc [] [] false false false 0%nat.
+Definition s_wait : st := run_sched (cfg 1000 0) (init sc_empty) [ABoss; ABoss].
+Example wait_state : reach (cfg 1000 0) sc_empty s_wait /\ pc (bm s_wait) = BFinal /\ nfault (ev s_wait) = 0%nat /\
+  final s_wait = false.
+Proof. split; [apply run_sched_reach; constructor | vm_compute; repeat split]. Qed.
+
+Example resp_ok_cov : resp_ok (cfg 1000 0) sc_cov /\ covered 0 (sc_ops sc_cov) = true.
+Proof. split; [unfold resp_ok; apply N.leb_le; vm_compute; reflexivity | reflexivity]. Qed.
